@@ -71,6 +71,19 @@ CLAIMED = {
             "Refutations by decide +kernel of the pinned behaviours F-16a / F-16c (repaired by fix: commits after the check reported them with replays) and of F-16b (recorded finding). Model tied to linalg.* by exact correspondence incl. call histories.",
             "Model mirrors the repaired code for F-16a/F-16c and the pinned code for F-16b (open finding; matrixDeterminant_eq_det_partial excludes exactly that region). Collocation matrices => non-zero pivots, "
             "the max-pivot property and the square-root helpers are oracle-only; frange, angle and triangle helpers are not covered."),
+    'C10': ("7/C10",
+            "Lean theorems: affine invariance of curve evaluation (if every control point of Q is the image of the corresponding point of P under one affine map of the coordinates, "
+            "every evaluated point of Q is the image of the evaluated point of P; uses partition of unity; any degree / knots / span / parameter / dimension; covers translation, scaling and "
+            "rotation about any centre with ANY c, s); the general lemmas for combinations with coefficients summing to one (surfaces, volumes) and for linear maps in homogeneous coordinates "
+            "(rational shapes); the model's translate / rotate formulas. The model (maps act on Cartesian points, weights unchanged, rotation centre = evaluated start point, cos/sin passed as the "
+            "doubles Python computes) is tied to operations.translate / rotate / scale on all six classes by exact correspondence; the oracle also checks inplace semantics, input snapshots and containers.",
+            "Not proved: the assembled statements for surfaces / volumes / rational shapes as theorems about surfacePointAt etc. (general lemmas are); object identity and containers are runtime notions (oracle only)."),
+    'C18': ("7/C18",
+            "Lean theorems (any degree, knots, span, parameter, dimension): for every linear functional the value at the evaluated curve point lies between any bounds of the functional on the p+1 active "
+            "control points (convex hull via all separating directions); every coordinate lies within the bounds of the control net (bounding box); clamped start and end: with p equal knots at the span "
+            "start / end A2.2 returns (1,0,..,0) / (0,..,0,1) and the evaluated point is the first / last active control point; rational coefficients N_i w_i / sum are non-negative and sum to one. "
+            "Model function boundingBox tied to the bbox property by exact correspondence; the exact oracle checks hull (axes + random directions), bbox, clamped ends on curves, surfaces, volumes, rational or not.",
+            "Not proved: surface / volume hull theorems as statements about surfacePointAt / volumePointAt; curve length bounds (floating point sqrt, oracle only)."),
     'C03': ("7/C03",
             "Lean theorems over the executable model (any degree, any non-decreasing knot function, any parameter, any ordered field): "
             "linear span search returns the unique half-open interval; A2.2 has p+1 non-negative values summing to 1 and equals the Cox-de Boor "
